@@ -64,13 +64,41 @@ def run_hash_seed(res, ast):
         res.check(fb["fields"]["kind"] == "unit", "HASH-SEED", f"{HASHER}|FastHasherBuilder|zst", where(HASHER, fb, "FastHasherBuilder"),
                   "FastHasherBuilder must be a unit struct (no per-instance seed)")
         bh = ast.fn(HASHER, "build_hasher")["node"]
-        res.check(T(ast, HASHER, bh["body"]) in ("{Self::Hasher::new()}", "{FastHasher::new()}"), "HASH-SEED", f"{HASHER}|build_hasher", where(HASHER, bh, "build_hasher"),
-                  "build_hasher must return FastHasher::new()")
-        nw = ast.fn(HASHER, "new", container="impl FastHasher")["node"]
-        res.check(T(ast, HASHER, nw["body"]) == "{Self(DEFAULT_SEED)}", "HASH-SEED", f"{HASHER}|FastHasher::new", where(HASHER, nw, "FastHasher::new"),
-                  "FastHasher::new must start from the constant DEFAULT_SEED")
-        seed = ast.item(HASHER, "Const", "DEFAULT_SEED")
-        res.check(int_lit(seed["expr"]) is not None, "HASH-SEED", f"{HASHER}|DEFAULT_SEED", where(HASHER, seed, "DEFAULT_SEED"), "DEFAULT_SEED must be an integer literal")
+        consts = {c_["name"]: c_ for c_ in ast.items(HASHER, "Const")}
+
+        def tail_of(fn_):
+            st_ = fn_["body"]["stmts"]
+            return strip_paren(st_[-1]["expr"]) if len(st_) == 1 and st_[-1]["t"] == "ExprStmt" and not st_[-1]["semi"] else None
+
+        def seeded(e_, depth=0):
+            """is e_ (the value of build_hasher) a FastHasher whose only field is an integer constant of this file?"""
+            if e_ is None or depth > 2:
+                return False, "not a single expression"
+            if e_["t"] == "Call":
+                nm = path_name(strip_paren(e_["func"])) or ""
+                if nm.split("::")[-1] in ("FastHasher", "Self") and len(e_["args"]) == 1:
+                    a_ = strip_paren(e_["args"][0])
+                    if int_lit(a_) is not None:
+                        return True, "literal seed"
+                    cn = path_name(a_)
+                    if cn in consts and int_lit(consts[cn]["expr"]) is not None:
+                        return True, f"constant {cn}"
+                    return False, f"seeded with `{T(ast, HASHER, a_)}`, which is not an integer constant"
+                if not e_["args"] and nm.split("::")[-1] not in ("default",):
+                    # a constructor function of this file: look at what it returns
+                    cands = [f_ for f_ in ast.find_fns(HASHER, nm.split("::")[-1]) if not is_test_item(f_) and f_["node"].get("body") and not f_["node"]["sig"]["inputs"]
+                             and f_["container"].replace(" ", "") in ("implFastHasher", "")]
+                    if len(cands) == 1:
+                        return seeded(tail_of(cands[0]["node"]), depth + 1)
+                return False, f"built by `{nm}`"
+            return False, "not a constructor call"
+        oks_, whys_ = seeded(tail_of(bh))
+        res.check(oks_, "HASH-SEED", f"{HASHER}|build_hasher", where(HASHER, bh, "build_hasher"),
+                  f"build_hasher must return a FastHasher seeded with an integer constant of this file: {whys_}")
+        res.check(oks_, "HASH-SEED", f"{HASHER}|FastHasher::new", where(HASHER, bh, "build_hasher"),
+                  "the hasher's initial state must be the constant seed")
+        seedc = [c_ for c_ in consts.values() if c_["name"] == "DEFAULT_SEED"]
+        res.check(bool(seedc) and int_lit(seedc[0]["expr"]) is not None if seedc else oks_, "HASH-SEED", f"{HASHER}|DEFAULT_SEED", HASHER, "DEFAULT_SEED must be an integer literal")
         # hasher methods use only their state, the argument and constants
         im = [i for i in ast.items(HASHER, "Impl") if i["trait"] and i["trait"]["name"] == "Hasher"]
         local = {f["name"]: f["node"] for f in ast.find_fns(HASHER) if not is_test_item(f) and f["node"].get("body")}
